@@ -38,6 +38,11 @@ def corpus():
     cs.append(mk(0.0, 10.0, 0.0, 91.0, [], [], "invalid"))
     cs.append(mk(0.0, 10.0, 0.0, 1.0, [361.0], [0.0], "invalid"))
     cs.append(mk(0.0, 10.0, 0.0, 1.0, [0.0], [-90.5], "invalid"))
+    # invalid coordinates must be rejected whatever the region is - in particular for full-globe regions
+    for (w0, e0) in ((0.0, 360.0), (-180.0, 180.0), (-20.0, 340.0), (10.0, 10.0), (350.0, 10.0)):
+        cs.append(mk(w0, e0, -10.0, 10.0, [400.0, 5.0], [0.0, 0.0], "invalid"))
+        cs.append(mk(w0, e0, -10.0, 10.0, [-200.0], [0.0], "invalid"))
+        cs.append(mk(w0, e0, -10.0, 10.0, [5.0, 6.0], [0.0, 100.0], "invalid"))
     for w0 in (300.0, -60.0, 170.25, 359.0, 10.0):
         for wd in (2.0 ** -9, 2.0 ** -12, 2.0 ** -6):
             cs.append(mk(w0, w0 + wd, -5.0, 5.0, [w0, w0 + wd / 2, w0 + wd, w0 - 1.0, w0 + 1.0], [0.0] * 5, "narrow"))
@@ -73,6 +78,11 @@ def generate(rng, tier):
         lats = [rng.randint(-90 * 4, 90 * 4) / 4.0 for _ in lons]
         kind = "random"
         if u > 0.93:
+            if rng.random() < 0.3:          # also with full-globe regions
+                w = rng.choice([0.0, -180.0, -20.0, float(rng.randint(-180, 0))])
+                e = w + 360.0
+                lons = lons or [10.0]
+                lats = lats or [0.0]
             kind = "invalid"
             k = rng.randint(0, 4)
             if k == 0:
